@@ -328,8 +328,12 @@ func installStd(m *Machine) {
 		}
 		return Num{W: 64, T: r.TT.mk(fmt.Sprintf("uf:xxh_%d", len(bs)), 64, 0, "", args...)}
 	}
-	I["github.com/klauspost/compress/zstd.NewWriter"] = func(r *Run, fr *Frame, a []Value) Value { return Tuple{Ptr(nil), nilErr()} }
-	I["github.com/klauspost/compress/zstd.NewReader"] = func(r *Run, fr *Frame, a []Value) Value { return Tuple{Ptr(nil), nilErr()} }
+	I["github.com/klauspost/compress/zstd.NewWriter"] = func(r *Run, fr *Frame, a []Value) Value {
+		cell := new(Value)
+		*cell = Struct{}
+		return Tuple{Ptr(cell), nilErr()}
+	}
+	I["github.com/klauspost/compress/zstd.NewReader"] = I["github.com/klauspost/compress/zstd.NewWriter"]
 	I["time.Now"] = func(r *Run, fr *Frame, a []Value) Value {
 		r.Clock += 1000
 		return Struct{Num{W: 64}, Num{W: 64, Signed: true, C: uint64(r.Clock)}, Ptr(nil)}
